@@ -121,6 +121,16 @@ Theorem C11_source_pipeline_entry_is_model : forall (rg : list val -> option str
 Proof. exact gen_run_pipeline_is_model. Qed.
 Print Assumptions C11_source_pipeline_entry_is_model.
 
+(** which outcomes of the child reach the parent, read from the source (the except ladder of
+    pypyr/steps/pype.py::run_step around the modelled body): instructions always pass; with
+    [raiseError] false every error — of whatever class — is dropped and the parent carries on;
+    with it true the error propagates unchanged. *)
+Theorem C11_source_pype_guard_is_model : forall (rp : string -> option (list string) -> option (list val) ->
+    option string -> option string -> st -> R) s,
+  gen_pype_run_step (pype_body rp) s = pype_step rp s.
+Proof. exact gen_pype_run_step_is_model. Qed.
+Print Assumptions C11_source_pype_guard_is_model.
+
 (** * Non-vacuity: child fails after mutating; parent isolated, carries on, call resolves in parent *)
 Definition T (nm : string) (b : body) (inn : dict) : step :=
   mkstep nm b (Some inn) None None None (VBool true) (VBool false) (VBool false) None (Some (1, 5)%Z).
